@@ -30,7 +30,11 @@
         let p = Primitive::Number(n);
         let r = p.as_integer_cast();
         // a returned integer is the number (within the 1e-5 tolerance the cast itself uses for "integral")
-        if let Ok(v) = &r { assert!(((*v as f64) - n).abs() < 0.001, "float -> i64 cast changed the value (saturation)"); }
+        if let Ok(v) = &r {
+            assert!(((*v as f64) - n).abs() < 0.001, "float -> i64 cast changed the value (saturation)");
+            // exactness at the ends of the range: an integer obtained from a float is itself a float value (i64::MAX is not: 2^63 saturates to it)
+            assert!(((*v as f64) as i128) == (*v as i128), "float -> i64 cast returned an integer the float cannot denote (saturation at 2^63)");
+        }
         core::mem::forget(r); core::mem::forget(p);
     }
     #[kani::proof]
@@ -60,6 +64,9 @@
         kani::cover!(true);
         let p = Primitive::Number(n);
         let r = p.as_usize_cast();
-        if let Ok(v) = &r { assert!(((*v as f64) - n).abs() < 0.001, "float -> usize cast changed the value (saturation)"); }
+        if let Ok(v) = &r {
+            assert!(((*v as f64) - n).abs() < 0.001, "float -> usize cast changed the value (saturation)");
+            assert!(((*v as f64) as i128) == (*v as i128), "float -> usize cast returned an integer the float cannot denote (saturation at 2^64)");
+        }
         core::mem::forget(r); core::mem::forget(p);
     }
